@@ -526,6 +526,8 @@ func coqCase(script []Step, res Result) string {
 // ---------- child: runs its share of the plans ----------
 
 type childOut struct {
+	Outside  bool        `json:"outside,omitempty"` // a step outside the stated assumptions: correspondence only
+	Invalid  bool        `json:"invalid,omitempty"` // not outside and not valid (c09_validb = false): must not happen
 	ID       int         `json:"id"`
 	Kind     string      `json:"kind"`
 	Coq      string      `json:"coq"`
@@ -580,6 +582,9 @@ func runPlan(p Plan, scratch string) childOut {
 		out.Failure = "timing: a retry iteration on a freshly queued node ran too late in six attempts (machine overloaded?)"
 	}
 	out.Coq = coqCase(script, res)
+	outside, valid := scriptValidity(script)
+	out.Outside = outside
+	out.Invalid = !outside && !valid
 	out.JSON = map[string]interface{}{"engine": p.Engine, "script": script, "obs": res.Obs, "events": res.Events}
 	seen := map[string]bool{}
 	nontriv := false
@@ -837,6 +842,7 @@ func main() {
 	}
 	w := lib.NewWriter(args, "C09", "c09", "From KB Require Import Model.C09Cases.", "c09_case", "c09_check", "c09_oracle", 120)
 	retries, maxWall := 0, int64(0)
+	outsideCases, invalidCases := []int{}, []int{}
 	for _, p := range ps {
 		o, ok := outs[p.ID]
 		if !ok {
@@ -852,6 +858,13 @@ func main() {
 		if o.Failure != "" {
 			w.Fail(lib.ImplFailure{CaseID: p.ID, What: o.Failure, Case: o.JSON})
 		}
+		if o.Outside {
+			outsideCases = append(outsideCases, p.ID)
+		}
+		if o.Invalid {
+			invalidCases = append(invalidCases, p.ID)
+			w.Fail(lib.ImplFailure{CaseID: p.ID, What: "the driver produced a script that is neither valid (c09_validb) nor marked outside the stated assumptions: it would not be covered by C09_oracle_sound", Case: o.JSON})
+		}
 		retries += o.Retries
 		if o.WallMs > maxWall {
 			maxWall = o.WallMs
@@ -863,6 +876,17 @@ func main() {
 	for _, b := range bad {
 		w.Fail(lib.ImplFailure{CaseID: -1, What: "unknown-outcome classification table: " + b})
 	}
+	// the decorator hands every class of commit error on unchanged (Model/C09Fronts.v deco_commit)
+	drows, dbad := decoratorTable(args.Scratch)
+	w.Stats.Extra["metrics_decorator_error_table"] = drows
+	for _, b := range dbad {
+		w.Fail(lib.ImplFailure{CaseID: -1, What: "storage metrics decorator changes the class of a commit error: " + b})
+	}
+	// validity: c09_check evaluates c09_validb on every case that is not marked outside (Coq side); the same count here
+	w.Stats.Extra["invalid_cases"] = len(invalidCases)
+	w.Stats.Extra["invalid_case_ids"] = invalidCases
+	w.Stats.Extra["outside_cases"] = map[string]interface{}{"count": len(outsideCases), "ids": outsideCases,
+		"reason": "a step_outside step (unknown-outcome error whose origin is a compare failure: contract corner no engine of /repo produces; or a client value equal to the deletion marker, C03's finding): evaluated for model correspondence only, c09_oracle reports nothing on them by definition"}
 	w.Stats.Extra["timing_reruns"] = retries
 	w.Stats.Extra["slowest_case_ms"] = maxWall
 	w.Stats.Extra["driver_wall_s"] = time.Since(t0).Seconds()
